@@ -8,7 +8,7 @@ CONSTANTS
   PerMille = {0, 400, 1000}
   TapMaxStart = 2
   TapMaxFreq = 3
-  Variant = "coded"
+  Variant = "coded_start"
 INVARIANT NothingBeforeStart
 INVARIANT FirstActionInStartWindow
 INVARIANT GapAtLeast
